@@ -838,3 +838,107 @@ def rule_CR(ctx, tier):
         rr.fail("in-mempool-verdict", "Carrier::in_mempool answers `%s` on a path that is not (Ok(tx) && tx.blockhash.is_none()): a penalty the node does not hold in its mempool would be tracked as sent" % v, where=im.line_of(bb))
     rr.require_floor(9, "CR instances")
     return rr
+
+
+# ------------------------------------------------------------------------------------------ TX
+def rule_TX(ctx, tier):
+    rr = RuleResult("TX", "bounded index mutators keep their three structures in step (structure only: every mutator touches map, queue and per-block keys)")
+    P = ctx.prog
+    T = "teos::tx_index::TxIndex::<K, V>::"
+
+    def recv_sites(b, frag1, frag2, field):
+        return [x for x in sites_containing(b, frag1, frag2) if ("f:" + field) in og.show(arg_origin(ctx, b, x, 0))]
+    u = P.require(T + "update")
+    fam = [P.bodies[x] for x in P.family(u.id)]
+    pb = recv_sites(u, "VecDeque", "::push_back", "blocks")
+    tib = recv_sites(u, "HashMap", "::insert", "tx_in_block")
+    idx = [x for fb in fam for x in recv_sites(fb, "HashMap", "::insert", "index")]
+    ro = sites(u, T + "remove_oldest_block")
+    mc = ctx.pf.must_call()[u.id]
+    for name, ss in (("blocks.push_back", pb), ("tx_in_block.insert", tib), ("index.insert", idx)):
+        if ss:
+            rr.ok("update: %s" % name)
+        else:
+            rr.fail("update:missing:%s" % name, "TxIndex::update no longer performs `%s`: the three structures drift apart" % name, where=u.span)
+    for x in pb + tib:
+        if not always_reaches(u, [0], [x]):
+            rr.fail("update:conditional:%d" % x, "TxIndex::update updates a structure only on some paths", where=u.line_of(x))
+    for x in tib:
+        k = og.show(arg_origin(ctx, u, x, 1))
+        if "block_hash" in k and "param#2" in k:
+            rr.ok("update: per-block keys stored under this block's hash")
+        else:
+            rr.fail("update:key", "tx_in_block is keyed by `%s`" % k[:80], where=u.line_of(x))
+    if ro and all(truth_fact(ctx, u, x, "is_full") is True for x in ro):
+        ok = all(always_reaches(u, [succ], ro) for sw, succ in switch_succ_with(ctx, u, "truth", True, "is_full"))
+        if ok:
+            rr.ok("update: evict the oldest block iff the index is over its size", sample={"rule": "TX", "update": "push; insert; if is_full() { tip += 1; remove_oldest_block() }"})
+        else:
+            rr.fail("update:no-evict", "a full index is not always evicted", where=u.span)
+    else:
+        rr.fail("update:evict-gate", "remove_oldest_block is not gated by is_full()", where=u.span)
+    tipw = [bb for bb in u.rpo() for s in u.blocks[bb]["s"] if s["k"] == "assign" and s["d"][-1] == "f:tip"]
+    if tipw and all(truth_fact(ctx, u, x, "is_full") is True for x in tipw):
+        rr.ok("update: tip advances only when a block is evicted")
+    else:
+        rr.fail("update:tip", "TxIndex.tip is written outside the eviction branch (or never)", where=u.span)
+    f = P.require(T + "is_full")
+    ret = ctx.og.local(f, 0)
+    from .rulekit import rel_of_term
+    if any(op == "Gt" and "len" in og.show(l) and "f:blocks" in og.show(l) and og.show(r).endswith("f:size") for op, l, r in rel_of_term(ret)):
+        rr.ok("is_full = blocks.len() > size")
+    else:
+        rr.fail("is_full-shape", "is_full is `%s`" % og.show(ret)[:80], where=f.span)
+    d = P.require(T + "remove_disconnected_block")
+    rm = recv_sites(d, "HashMap", "::remove", "tx_in_block")
+    ret_ = recv_sites(d, "HashMap", "::retain", "index")
+    pop = recv_sites(d, "VecDeque", "::pop_back", "blocks")
+    if rm and all(arg_origin(ctx, d, x, 1) == ("param", d.id, 2) for x in rm):
+        rr.ok("disconnect: keys of the disconnected block looked up by its hash")
+    else:
+        rr.fail("disconnect:lookup", "remove_disconnected_block does not remove the disconnected block's key list", where=d.span)
+    for sw, succ in switch_succ_with(ctx, d, "variant", "Some", "HashMap", "remove"):
+        for name, ss in (("index.retain", ret_), ("blocks.pop_back", pop)):
+            if ss and always_reaches(d, [succ], ss):
+                rr.ok("disconnect: %s" % name)
+            else:
+                rr.fail("disconnect:missing:%s" % name, "remove_disconnected_block does not always perform `%s` for a known block: entries of a disconnected block stay visible / the queue keeps the block" % name, where=d.span)
+    # the retain closure keeps exactly the keys not in the removed list
+    for cid in P.children(d.id):
+        cb = P.bodies[cid]
+        r0 = ctx.og.local(cb, 0)
+        s0 = og.show(r0)
+        if s0.startswith("Not(") and "contains" in s0:
+            rr.ok("disconnect: retain(|k| !removed.contains(k))")
+        else:
+            rr.fail("disconnect:retain-predicate", "the index is filtered with `%s`" % s0[:80], where=cb.span)
+    o = P.require(T + "remove_oldest_block")
+    for name, ss in (("blocks.pop_front", recv_sites(o, "VecDeque", "::pop_front", "blocks")), ("tx_in_block.remove", recv_sites(o, "HashMap", "::remove", "tx_in_block")), ("index.retain", recv_sites(o, "HashMap", "::retain", "index"))):
+        if ss and always_reaches(o, [0], ss):
+            rr.ok("evict: %s" % name)
+        else:
+            rr.fail("evict:missing:%s" % name, "remove_oldest_block does not perform `%s`" % name, where=o.span)
+    g = P.require(T + "get")
+    gs = recv_sites(g, "HashMap", "::get", "index")
+    if gs and arg_origin(ctx, g, gs[0], 1) == ("param", g.id, 2):
+        rr.ok("get reads the map with the given key")
+    else:
+        rr.fail("get-shape", "TxIndex::get does not look the key up in the map", where=g.span)
+    n = P.require(T + "new")
+    if sites_containing(n, "Iterator", "::rev") or sites_containing(n, "::rev"):
+        rr.ok("new: blocks inserted oldest first (input is newest first)")
+    else:
+        rr.fail("new:order", "TxIndex::new does not reverse the newest-first block list: the queue would evict the newest blocks", where=n.span)
+    szw = [s for bb in n.rpo() for s in n.blocks[bb]["s"] if s["k"] == "assign" and s["rv"]["k"] == "agg" and s["rv"].get("adt", "").endswith("TxIndex")]
+    okz = False
+    for s in szw:
+        t = ctx.og._rvalue(n, s["rv"], 0, ())
+        fz = dict(t[3])
+        if "len" in og.show(fz.get("size")) and "param#1" in og.show(fz.get("size")) and fz.get("tip") == ("param", n.id, 2):
+            okz = True
+    if okz:
+        rr.ok("new: size = number of blocks given, tip = given height")
+    else:
+        rr.fail("new:size", "TxIndex::new does not take its size from the block slice / tip from the height", where=n.span)
+    rr.require_floor(17, "TX instances")
+    return rr
